@@ -514,3 +514,64 @@ package state
 //@ requires forall j int :: 0 <= j && j < len(ops) ==> ops[j] != nil
 //@ ensures[read-only-never-commits] commits() == old(commits())
 //@ ensures[errors-exclude-results] len(errs) > 0 ==> len(results) == 0
+
+// ---- C10: catalog verbs with check-and-set semantics (used by transactions)
+// The underlying ensure*/delete* functions (several hundred lines each, maintaining a dozen derived tables) are
+// ASSUMED (trusted, arbitrary effect on the tx); what is proved is that they are reached only when the caller's
+// index matches, and that a mismatch writes nothing.
+
+//@ file catalog.go
+
+//@ func Store.ensureCheckTxn
+//@ trusted
+//@ results rerr
+//@ func Store.deleteCheckTxn
+//@ trusted
+//@ results rerr
+//@ func Store.ensureNodeTxn
+//@ trusted
+//@ results rerr
+//@ func Store.deleteNodeTxn
+//@ trusted
+//@ results rerr
+//@ func Store.deleteServiceTxn
+//@ trusted
+//@ results rerr
+//@ func ensureServiceTxn
+//@ trusted
+//@ results rerr
+
+//@ pure checkAt(node string, id string, peer string) *structs.HealthCheck = T_checks(NodeCheckQuery{Node: node, CheckID: id, PeerName: peer})
+//@ pure nodeAt(node string, peer string) *structs.Node = T_nodes(Query{Value: node, PeerName: peer})
+//@ pure catalogUntouched() bool = (forall k string :: T_checks(k) == old(T_checks(k))) && (forall k string :: T_nodes(k) == old(T_nodes(k))) && (forall k string :: T_services(k) == old(T_services(k))) && (forall t string :: T_index(t) == old(T_index(t)))
+
+//@ func Store.ensureCheckCASTxn
+//@ props C10
+//@ results ok, err
+//@ requires hc != nil
+//@ ensures[applied-only-if-matched] ok ==> (old(hc.ModifyIndex) == 0 && old(checkAt(hc.Node, string(hc.CheckID), hc.PeerName)) == nil) || (old(hc.ModifyIndex) != 0 && old(checkAt(hc.Node, string(hc.CheckID), hc.PeerName)) != nil && old(checkAt(hc.Node, string(hc.CheckID), hc.PeerName).ModifyIndex) == old(hc.ModifyIndex))
+//@ ensures[mismatch-writes-nothing] !((old(hc.ModifyIndex) == 0 && old(checkAt(hc.Node, string(hc.CheckID), hc.PeerName)) == nil) || (old(hc.ModifyIndex) != 0 && old(checkAt(hc.Node, string(hc.CheckID), hc.PeerName)) != nil && old(checkAt(hc.Node, string(hc.CheckID), hc.PeerName).ModifyIndex) == old(hc.ModifyIndex))) ==> !ok && catalogUntouched()
+//@ ensures[err-not-ok] err != nil ==> !ok
+
+//@ func Store.deleteCheckCASTxn
+//@ props C10
+//@ results ok, err
+//@ ensures[applied-only-if-matched] ok ==> old(checkAt(node, string(checkID), peerName)) != nil && old(checkAt(node, string(checkID), peerName).ModifyIndex) == cidx
+//@ ensures[mismatch-writes-nothing] !(old(checkAt(node, string(checkID), peerName)) != nil && old(checkAt(node, string(checkID), peerName).ModifyIndex) == cidx) ==> !ok && catalogUntouched()
+//@ ensures[err-not-ok] err != nil ==> !ok
+
+//@ func Store.ensureNodeCASTxn
+//@ props C10
+//@ results ok, err
+//@ requires node != nil
+//@ ensures[applied-only-if-matched] ok ==> (old(node.ModifyIndex) == 0 && old(nodeAt(node.Node, node.PeerName)) == nil) || (old(node.ModifyIndex) != 0 && old(nodeAt(node.Node, node.PeerName)) != nil && old(nodeAt(node.Node, node.PeerName).ModifyIndex) == old(node.ModifyIndex))
+//@ ensures[mismatch-writes-nothing] !((old(node.ModifyIndex) == 0 && old(nodeAt(node.Node, node.PeerName)) == nil) || (old(node.ModifyIndex) != 0 && old(nodeAt(node.Node, node.PeerName)) != nil && old(nodeAt(node.Node, node.PeerName).ModifyIndex) == old(node.ModifyIndex))) ==> !ok && catalogUntouched()
+//@ ensures[err-not-ok] err != nil ==> !ok
+
+//@ func Store.deleteNodeCASTxn
+//@ props C10
+//@ results ok, err
+//@ requires entMeta != nil
+//@ ensures[applied-only-if-matched] ok ==> old(nodeAt(nodeName, peerName)) != nil && old(nodeAt(nodeName, peerName).ModifyIndex) == cidx
+//@ ensures[mismatch-writes-nothing] !(old(nodeAt(nodeName, peerName)) != nil && old(nodeAt(nodeName, peerName).ModifyIndex) == cidx) ==> !ok && catalogUntouched()
+//@ ensures[err-not-ok] err != nil ==> !ok
